@@ -14,7 +14,8 @@ import os
 import json
 import glob
 
-from .common import Part, HarnessError, REPO
+from .common import Part, HarnessError, REPO, global_memo
+from .common import reset_global_memo as _reset_memo
 from . import e2
 from . import progspace as ps
 from . import namecheck as nc
@@ -30,7 +31,7 @@ from supp.project import Project
 
 
 def reset_global_memo():
-    supp.scope.builtin_scope.__dict__.pop('names', None)
+    _reset_memo()
 
 
 def canon_name(n):
@@ -100,8 +101,8 @@ class Module(object):
         return json.dumps([view, len(visible), hash_list(visible), decl, ev, attrs])
 
     def state(self):
-        bs = supp.scope.builtin_scope
-        memo = e2.runtime_memo_summary(bs.__dict__.get('names'))
+        bs, names = global_memo()
+        memo = e2.runtime_memo_summary(names)
         return e2.fingerprint([self.scope, memo], opaque=[bs])
 
 
@@ -345,7 +346,7 @@ def project_search(part, which='loop'):
                                 REQS[ev], obs[:300], hist, ref[ev][:300]),
                             {'kind': 'project', 'which': which}))
 
-        s = e2.Search(build, list(range(len(REQS))), lambda P: e2.fingerprint([P, e2.runtime_memo_summary(supp.scope.builtin_scope.__dict__.get('names'))], opaque=[supp.scope.builtin_scope]), max_states=600).run(on_transition)
+        s = e2.Search(build, list(range(len(REQS))), lambda P: e2.fingerprint([P, e2.runtime_memo_summary(global_memo()[1])], opaque=[global_memo()[0]]), max_states=600).run(on_transition)
         part.count('states', s.states)
         part.count('transitions', s.transitions)
         part.count('project_states', s.states)
